@@ -90,3 +90,37 @@ def c11_conformance(tier, seed):
     rc, o = _run(rec)
     return [_entry("C11", "FlowProposal.resume::conformance[bounded]", rc,
                    o, t0, "crash injection at 7 points of the weights save")]
+
+
+def _lib_conformance(tier, seed):
+    """every property: the library contracts the proofs assume, tested on
+    random small inputs against the installed numpy / scipy / torch"""
+    if tier != "thorough":
+        return []
+    t0 = time.time()
+    try:
+        p = subprocess.run(
+            [PY, os.path.join(HERE, "tools", "lib_conformance.py"),
+             str(seed or 1), "300"], capture_output=True, text=True,
+            timeout=900, cwd=tempfile.gettempdir())
+        rc, out = p.returncode, (p.stdout + p.stderr)
+    except subprocess.TimeoutExpired:
+        rc, out = 3, "timeout"
+    e = {"ident": "library-contracts::conformance[bounded]",
+         "kind": "bounded-conformance", "backend": "bounded:real-library",
+         "obligations": 0, "bounded": True, "time": time.time() - t0,
+         "detail": out.strip()[-400:],
+         "note": "31 library facts of pyvc/nplib.py on random small inputs"}
+    if rc == 0:
+        e["status"] = "discharged"
+    else:
+        # a wrong library model is a checker problem, never a violation
+        e["status"] = "error"
+        e["note"] = "library model disagrees with the installed library: " \
+            + out.strip()[-300:]
+    return [e]
+
+
+for _pid in ("C01", "C02", "C03", "C04", "C05", "C07", "C08", "C09", "C10",
+             "C11", "C12", "C13", "C15", "C16", "C17", "C20"):
+    extra(_pid)(_lib_conformance)
